@@ -144,6 +144,7 @@ type scionVariant struct {
 	garbage        []byte
 	hbh            bool      // a hop-by-hop extension header (padding option) in front of E2E extension / UDP
 	auth           *authSpec // E2E extension with a packet authenticator option (gen_auth.go)
+	rawPathType    byte      // != 0: path type field of the common header overwritten after serialisation (empty path of an unregistered type)
 }
 
 func tsOptData(ns int64) []byte {
@@ -230,6 +231,9 @@ func buildSCION(v scionVariant, srcPort, dstPort uint16, payload []byte) (d dgra
 		d.wire = append([]byte(nil), buffer.Bytes()...)
 		if v.auth != nil && v.auth.alterPayload && len(payload) > 2 {
 			d.wire[len(d.wire)-len(payload)+2] ^= 0x04 // poll field, after the MAC was computed: unchecked by the NTP stage
+		}
+		if v.rawPathType != 0 {
+			d.wire[8] = v.rawPathType
 		}
 		if v.udpLenDelta != 0 && !v.scmp {
 			off := len(d.wire) - len(payload) - 8 + 4
